@@ -95,21 +95,28 @@ SubstFrom(val, m, i) == IF i > Len(val) THEN <<>>
 Subst(val, m) == SubstFrom(val, m, 1)
 
 ---------------------------------------------------------------------------
-EnvFn(e) == TLCEval([k \in keys[e] |-> ValueOf(k, e)])
+(* the definitions below take the set of existing environments (pr) and their keys (ks) as arguments so that a    *)
+(* property can compare the result with the one for a package without the irrelevant environments                  *)
+EnvFnOf(ks, e) == TLCEval([k \in ks[e] |-> ValueOf(k, e)])
+EnvFn(e) == EnvFnOf(keys, e)
 Id(n, p) == IF n = "named" THEN (IF p = "default" THEN "named@default" ELSE "named@p1")
                            ELSE (IF p = "default" THEN "pkg@default" ELSE "pkg@p1")
 (* is environment n visible to the selected platform, and its contents: the platform's over the default platform's *)
-Defined(n) == Id(n, "default") \in present \/ (plat = "p1" /\ Id(n, "p1") \in present)
-Layered(n) == Merge(IF Id(n, "default") \in present THEN EnvFn(Id(n, "default")) ELSE Empty,
-                    IF plat = "p1" /\ Id(n, "p1") \in present THEN EnvFn(Id(n, "p1")) ELSE Empty)
+DefinedOf(pr, n) == Id(n, "default") \in pr \/ (plat = "p1" /\ Id(n, "p1") \in pr)
+LayeredOf(pr, ks, n) == Merge(IF Id(n, "default") \in pr THEN EnvFnOf(ks, Id(n, "default")) ELSE Empty,
+                              IF plat = "p1" /\ Id(n, "p1") \in pr THEN EnvFnOf(ks, Id(n, "p1")) ELSE Empty)
+Defined(n) == DefinedOf(present, n)
+Layered(n) == LayeredOf(present, keys, n)
 Sources(n) == {"launch", "system", Id(n, "default")} \cup (IF plat = "p1" THEN {Id(n, "p1")} ELSE {})
 
-Base == CASE sel \in NoneSels    -> [ok |-> TRUE, env |-> Empty, launchcopy |-> FALSE, n |-> "-"]
-          [] sel \in DefaultSels -> IF Defined("pkg") THEN [ok |-> TRUE, env |-> Layered("pkg"), launchcopy |-> FALSE, n |-> "pkg"]
-                                                      ELSE [ok |-> TRUE, env |-> Launch, launchcopy |-> TRUE, n |-> "-"]
-          [] sel \in NamedSels   -> IF Defined("named") THEN [ok |-> TRUE, env |-> Layered("named"), launchcopy |-> FALSE, n |-> "named"]
-                                                        ELSE [ok |-> FALSE, env |-> Empty, launchcopy |-> FALSE, n |-> "named"]
-          [] OTHER               -> [ok |-> FALSE, env |-> Empty, launchcopy |-> FALSE, n |-> "-"]
+BaseOf(pr, ks) ==
+    CASE sel \in NoneSels    -> [ok |-> TRUE, env |-> Empty, launchcopy |-> FALSE, n |-> "-"]
+      [] sel \in DefaultSels -> IF DefinedOf(pr, "pkg") THEN [ok |-> TRUE, env |-> LayeredOf(pr, ks, "pkg"), launchcopy |-> FALSE, n |-> "pkg"]
+                                                        ELSE [ok |-> TRUE, env |-> Launch, launchcopy |-> TRUE, n |-> "-"]
+      [] sel \in NamedSels   -> IF DefinedOf(pr, "named") THEN [ok |-> TRUE, env |-> LayeredOf(pr, ks, "named"), launchcopy |-> FALSE, n |-> "named"]
+                                                          ELSE [ok |-> FALSE, env |-> Empty, launchcopy |-> FALSE, n |-> "named"]
+      [] OTHER               -> [ok |-> FALSE, env |-> Empty, launchcopy |-> FALSE, n |-> "-"]
+Base == BaseOf(present, keys)
 
 (* names imported from the launch environment: listed in the (layered) DEFAULTS key and present at launch *)
 Imported(e1) == IF "DEFAULTS" \in DOMAIN e1
@@ -128,7 +135,8 @@ Build(env0) ==
         add == IF interp THEN (PathVars \cap DOMAIN Launch) \ DOMAIN e4 ELSE {}
     IN  Merge(TLCEval([k \in add |-> Launch[k]]), e4)
 
-Expected == IF Base.ok THEN [ok |-> TRUE, env |-> Build(Base.env)] ELSE [ok |-> FALSE, env |-> Empty]
+ExpectedOf(pr, ks) == LET B == BaseOf(pr, ks) IN IF B.ok THEN [ok |-> TRUE, env |-> Build(B.env)] ELSE [ok |-> FALSE, env |-> Empty]
+Expected == ExpectedOf(present, keys)
 
 ---------------------------------------------------------------------------
 Init == /\ plat \in Plats /\ sel \in Sels /\ spell \in Spells /\ interp \in Interps
@@ -183,8 +191,16 @@ PlatformOverDefaultP(E, B) == (E.ok /\ B.n # "-" /\ plat = "p1" /\ Id(B.n, "p1")
 OwnBeforeLaunchP(E, B) == (E.ok /\ B.n # "-" /\ "ROWN" \in DeclaredP(B) /\ "LIT" \in DeclaredP(B)) =>
                              E.env["ROWN"][2].e # "launch"
 
+(* environments that are not a source for this selection and platform (the other kind of environment, the other *)
+(* platform's environments) never matter: the result equals the one for the package without them                  *)
+RelevantIds == LET n == IF sel \in NamedSels THEN "named" ELSE IF sel \in DefaultSels THEN "pkg" ELSE "-"
+               IN IF n = "-" THEN {} ELSE {Id(n, "default")} \cup (IF plat = "p1" THEN {Id(n, "p1")} ELSE {})
+ForeignIrrelevantP(E, B) == E = ExpectedOf(present \cap RelevantIds, [e \in EnvIds |-> IF e \in RelevantIds THEN keys[e] ELSE {}])
+ForeignIrrelevant == ForeignIrrelevantP(Expected, Base)
+
 AllPropsP(E, B) == /\ ErrorIffP(E, B) /\ NoLeakP(E, B) /\ NoneIsEmptyP(E, B) /\ SystemAlwaysP(E, B)
                    /\ NoForeignTextP(E, B) /\ PlatformOverDefaultP(E, B) /\ OwnBeforeLaunchP(E, B)
+                   /\ ForeignIrrelevantP(E, B)
 
 ErrorIff            == ErrorIffP(Expected, Base)
 NoLeak              == NoLeakP(Expected, Base)
@@ -193,13 +209,6 @@ SystemAlways        == SystemAlwaysP(Expected, Base)
 NoForeignText       == NoForeignTextP(Expected, Base)
 PlatformOverDefault == PlatformOverDefaultP(Expected, Base)
 OwnBeforeLaunch     == OwnBeforeLaunchP(Expected, Base)
-
-(* adding a key to / creating an environment that is not a source for this selection and platform never changes  *)
-(* the result (action property): the other kind of environment, the other platform's environments                *)
-RelevantIds == LET n == IF sel \in NamedSels THEN "named" ELSE IF sel \in DefaultSels THEN "pkg" ELSE "-"
-               IN IF n = "-" THEN {} ELSE {Id(n, "default")} \cup (IF plat = "p1" THEN {Id(n, "p1")} ELSE {})
-ForeignIrrelevant == [][(\A e \in RelevantIds : keys'[e] = keys[e] /\ (e \in present' <=> e \in present))
-                           => Expected' = Expected]_vars
 
 ---------------------------------------------------------------------------
 CaseP(E, B) == [family |-> Family, plat |-> plat, sel |-> sel, spell |-> spell, interp |-> interp,
